@@ -233,13 +233,15 @@ termination_by cs.length
 def tokenize (k : Cls) (input : List Char) : Except LexErr (List Spanned) :=
   tokenizeFrom k input.length input
 
-/-! ### nesting skeleton of the recursive-descent parser (parser/expressions/*.rs after repair
-fad76d94): only the re-entry structure, with the depth counter `enter_nesting` / `leave_nesting`.
+/-! ### nesting skeleton of the recursive-descent parser (parser/expressions/*.rs after repairs
+fad76d94 / c8ff49be): only the re-entry structure, with the depth counter `enter_nesting` /
+`leave_nesting`.  Every arrow that takes a level is marked ↑.
 
-  expr   := notE (OR|AND notE)*          -- `parse_expression` takes one level
-  notE   := NOT notE | unary (binop unary)*      -- chained NOT takes one level each
-  unary  := (+|-) unary | primary                -- chained sign takes one level each
-  primary:= atom | "(" expr ")"
+  expr    := ↑ operands                         -- `parse_expression`
+  operands:= notE (binop notE)*                 -- the precedence loops, same level
+  notE    := NOT ↑ notE | unary                 -- `parse_not_expression`
+  unary   := - ↑ unary | primary                -- `parse_unary_expression`
+  primary := ↑ ( atom | "(" expr ")" )          -- `parse_primary_expression`
 -/
 
 inductive SkTok where
@@ -252,35 +254,68 @@ inductive SkErr where
   | outOfFuel
   deriving Repr, DecidableEq, Inhabited
 
-/-- `budget` = levels still available (`MAX_NESTING_DEPTH - depth`); `fuel` bounds the number of
-    steps (token count suffices, see `Props/C23`). Returns the unread tokens. -/
-def skExpr : (fuel : Nat) → (budget : Nat) → List SkTok → Except SkErr (List SkTok)
-  | 0, _, _ => .error .outOfFuel
-  | _ + 1, 0, _ => .error .tooDeep
-  | fuel + 1, budget + 1, ts =>
-    -- notE
-    match ts with
-    | .not :: rest =>
-      -- enter_nesting for the chained NOT: a level for the operand
-      (match budget with
-       | 0 => .error .tooDeep
-       | b + 1 => skExpr fuel (b + 1) rest)
-    | .minus :: rest =>
-      (match budget with
-       | 0 => .error .tooDeep
-       | b + 1 => skExpr fuel (b + 1) rest)
-    | .atom :: rest =>
-      (match rest with
-       | .binop :: rest' => skExpr fuel (budget + 1) rest'   -- loop: same level, one token consumed
-       | _ => .ok rest)
-    | .lp :: rest =>
-      (match skExpr fuel budget rest with
-       | .error e => .error e
-       | .ok (.rp :: rest') =>
-         (match rest' with
-          | .binop :: rest'' => skExpr fuel (budget + 1) rest''
-          | _ => .ok rest')
-       | .ok _ => .error .syntax)
-    | _ => .error .syntax
+inductive SkMode where
+  | expr | operands | notE | unary | primary
+  deriving Repr, DecidableEq, Inhabited
+
+/-- `left` = levels still available (`MAX_NESTING_DEPTH - depth`); `fuel` bounds the number of
+    steps.  Returns the unread tokens. -/
+def sk : (fuel : Nat) → SkMode → (left : Nat) → List SkTok → Except SkErr (List SkTok)
+  | 0, _, _, _ => .error .outOfFuel
+  | fuel + 1, .expr, left, ts =>
+    (match left with
+     | 0 => .error .tooDeep
+     | l + 1 => sk fuel .operands l ts)
+  | fuel + 1, .operands, left, ts =>
+    (match sk fuel .notE left ts with
+     | .error e => .error e
+     | .ok (.binop :: rest) => sk fuel .operands left rest
+     | .ok rest => .ok rest)
+  | fuel + 1, .notE, left, ts =>
+    (match ts with
+     | .not :: rest =>
+       (match left with
+        | 0 => .error .tooDeep
+        | l + 1 => sk fuel .notE l rest)
+     | _ => sk fuel .unary left ts)
+  | fuel + 1, .unary, left, ts =>
+    (match ts with
+     | .minus :: rest =>
+       (match left with
+        | 0 => .error .tooDeep
+        | l + 1 => sk fuel .unary l rest)
+     | _ => sk fuel .primary left ts)
+  | fuel + 1, .primary, left, ts =>
+    (match left with
+     | 0 => .error .tooDeep
+     | l + 1 =>
+       match ts with
+       | .atom :: rest => .ok rest
+       | .lp :: rest =>
+         (match sk fuel .expr l rest with
+          | .error e => .error e
+          | .ok (.rp :: rest') => .ok rest'
+          | .ok _ => .error .syntax)
+       | _ => .error .syntax)
+
+/-! ### call graph of the parser: "every cycle passes a guarded function"
+
+`Generated.parserUnguardedCalls` lists the parser functions that do not call `enter_nesting`, callees
+first, each with the list positions of the unguarded functions it calls.  If every call goes to
+an earlier position there is no cycle among unguarded functions. -/
+
+/-- every function at position `i` only calls positions `< i` -/
+def wellRanked : Nat → List (String × List Nat) → Bool
+  | _, [] => true
+  | i, (_, callees) :: rest => callees.all (· < i) && wellRanked (i + 1) rest
+
+/-- `u` calls `v` -/
+def Calls (g : List (String × List Nat)) (u v : Nat) : Prop :=
+  ∃ e, g[u]? = some e ∧ v ∈ e.2
+
+/-- a non-empty chain of calls -/
+inductive CallPath (g : List (String × List Nat)) : Nat → Nat → Prop where
+  | one {u v} : Calls g u v → CallPath g u v
+  | step {u v w} : Calls g u v → CallPath g v w → CallPath g u w
 
 end VibeProof.Lexer
